@@ -109,3 +109,10 @@ PROPERTIES.update({k: dict(bounds="", outside="", assumptions=[]) for k in ["C14
 for n in ["err_channel_emfile", "err_send_dedicated_emfile", "err_connect_fails", "cloexec_created", "cloexec_received"]:
     H(n, ["C11"], sym="payload bytes symbolic; which descriptor-creating call fails is concrete per harness", bounds="unwind 6..10")
 PROPERTIES.update({k: dict(bounds="", outside="", assumptions=[]) for k in ["C11"]})
+
+# ---- handle histories (C03) ------------------------------------------------------------------------
+for n in ["hist_clone_then_drop_original", "hist_queue_then_drop", "hist_three_handles", "hist_clone_dropped_at_once"]:
+    H(n, ["C03"], sym="bytes sent symbolic; the history (clone / drop / send on up to 3 handles) concrete per harness, observed by try_recv after every step",
+      bounds="unwind 8; <= 6 operations, <= 3 sender handles")
+for n in ["transit_queued_small", "transit_carrier_dropped_small", "transit_unpacked_small", "crash_after_0_nosurv", "crash_after_3_surv"]:
+    HARNESSES[n]["props"].append("C03")
